@@ -949,3 +949,198 @@ Proof.
   - exists t, []. split; [reflexivity|]. split; [simpl; lia|]. split; [reflexivity|]. split; [intros sp []|].
     intros s a e HE. exfalso. destruct (email_shape_facts _ _ _ _ _ HE) as [H1 [H2 _]]. exact (Hrs a H1 H2).
 Qed.
+
+(* ------------------------------------------------------------------------------------------ *)
+(* consequences, in the form used by Props/C14.v *)
+
+Lemma nth_error_firstn_lt : forall (l : bytes) n k, k < n -> nth_error (firstn n l) k = nth_error l k.
+Proof.
+  induction l as [|x l IH]; intros n k H.
+  - rewrite firstn_nil. reflexivity.
+  - destruct n; [lia|]. destruct k; simpl; [reflexivity|]. apply IH. lia.
+Qed.
+
+(* everything outside the spans is preserved, byte for byte, in order *)
+Lemma splice_outside : forall t spans lo i,
+  spans_ordered lo spans (length t) -> lo <= i -> ~ covered spans i ->
+  nth_error (splice t lo spans) (out_index lo spans i) = nth_error t i.
+Proof.
+  intros t spans. induction spans as [|[s e] r IH]; intros lo i Hord Hlo Hnc; cbn [splice out_index].
+  - rewrite nth_error_skipn'. f_equal. lia.
+  - cbn [spans_ordered] in Hord. destruct Hord as [H1 [H2 H3]].
+    assert (He : e <= length t).
+    { clear - H3. revert e H3. induction r as [|[s1 e1] r IH]; intros e H; simpl in H; [lia|].
+      destruct H as [Ha [Hb Hc]]. specialize (IH _ Hc). lia. }
+    assert (Hlen : length (firstn (s - lo) (skipn lo t)) = s - lo).
+    { apply firstn_length_le. rewrite skipn_length. lia. }
+    destruct (i <? s) eqn:Ei.
+    + rewrite nth_error_app1 by lia. rewrite nth_error_firstn_lt by lia. rewrite nth_error_skipn'. f_equal. lia.
+    + assert (e <= i).
+      { destruct (Nat.le_gt_cases e i); [assumption|]. exfalso. apply Hnc. exists s, e. split; [left; reflexivity | lia]. }
+      rewrite nth_error_app2 by lia. rewrite nth_error_app2 by lia.
+      replace (s - lo + length marker + out_index e r i - length (firstn (s - lo) (skipn lo t)) - length marker)
+        with (out_index e r i) by lia.
+      apply IH; [exact H3 | assumption|].
+      intros [s1 [e1 [Hin Hi]]]. apply Hnc. exists s1, e1. split; [right; exact Hin | exact Hi].
+Qed.
+
+Lemma redact_email_total : forall t, exists out spans, redact_email t = Ok (out, spans).
+Proof. intros t. destruct (redact_email_spec t) as [out [spans [H _]]]. eauto. Qed.
+
+Lemma redact_email_post : forall t out spans, redact_email t = Ok (out, spans) -> redact_post t out spans.
+Proof.
+  intros t out spans H. destruct (redact_email_spec t) as [out' [spans' [H' HP]]].
+  rewrite H in H'. inversion H'; subst. exact HP.
+Qed.
+
+Lemma structure_lemma : forall t out spans, redact_email t = Ok (out, spans) ->
+  spans_ordered 0 spans (length t) /\ out = splice t 0 spans.
+Proof. intros t out spans H. destruct (redact_email_post _ _ _ H) as [H1 [H2 _]]. auto. Qed.
+
+Lemma outside_preserved_lemma : forall t out spans i, redact_email t = Ok (out, spans) ->
+  ~ covered spans i -> nth_error out (out_index 0 spans i) = nth_error t i.
+Proof.
+  intros t out spans i H Hnc. destruct (structure_lemma _ _ _ H) as [H1 H2]. subst out.
+  apply splice_outside; [exact H1 | lia | exact Hnc].
+Qed.
+
+Lemma complete_lemma : forall t out spans s a e, redact_email t = Ok (out, spans) ->
+  email_at t s a e -> forall i, s <= i < e -> covered spans i.
+Proof. intros t out spans s a e H HE. destruct (redact_email_post _ _ _ H) as [_ [_ [_ H4]]]. exact (H4 s a e HE). Qed.
+
+Lemma complete_literal_lemma : forall t out spans s a e, redact_email t = Ok (out, spans) ->
+  email_at_literal t s a e -> forall i, s <= i < e -> covered spans i.
+Proof. intros t out spans s a e H HE. apply (complete_lemma t out spans s a e H). apply literal_is_email_at. exact HE. Qed.
+
+Lemma sound_lemma : forall t out spans es ee, redact_email t = Ok (out, spans) -> In (es, ee) spans ->
+  exists s a, s <= es /\ es <= a /\ a < ee /\ email_at t s a ee.
+Proof.
+  intros t out spans es ee H Hin. destruct (redact_email_post _ _ _ H) as [_ [_ [H3 _]]].
+  exact (H3 (es, ee) Hin).
+Qed.
+
+Lemma no_email_unchanged_lemma : forall t, no_email t -> redact_email t = Ok (t, []).
+Proof.
+  intros t Hno. destruct (redact_email_spec t) as [out [spans [H [H1 [H2 [H3 H4]]]]]].
+  destruct spans as [|sp spans].
+  - simpl in H2. subst out. exact H.
+  - exfalso. destruct (H3 sp (or_introl eq_refl)) as [s [a [_ [_ [_ HE]]]]]. exact (Hno _ _ _ HE).
+Qed.
+
+Lemma changed_iff_email_lemma : forall t out spans, redact_email t = Ok (out, spans) ->
+  (spans <> [] <-> exists s a e, email_at t s a e).
+Proof.
+  intros t out spans H. destruct (redact_email_post _ _ _ H) as [_ [_ [H3 H4]]]. split.
+  - intro Hne. destruct spans as [|sp spans]; [congruence|].
+    destruct (H3 sp (or_introl eq_refl)) as [s [a [_ [_ [_ HE]]]]]. eauto.
+  - intros [s [a [e HE]]] E. subst spans.
+    destruct (email_shape_facts _ _ _ _ _ HE) as [_ [_ [Hsa [Hae _]]]].
+    assert (Hi : s <= s < e) by lia.
+    destruct (H4 s a e HE s Hi) as [s1 [e1 [[] _]]].
+Qed.
+
+(* the transform: field value, spans and the 'redacted' counter *)
+Lemma transform_lemma : forall v,
+  exists r, transform_redact v = Ok r /\
+    spans_ordered 0 (tr_spans r) (length v) /\
+    tr_value r = splice v 0 (tr_spans r) /\
+    (forall s a e, email_at v s a e -> forall i, s <= i < e -> covered (tr_spans r) i) /\
+    (forall es ee, In (es, ee) (tr_spans r) -> exists s a, s <= es /\ es <= a /\ a < ee /\ email_at v s a ee) /\
+    (tr_counted r = true <-> exists s a e, email_at v s a e) /\
+    (tr_counted r = false -> tr_value r = v).
+Proof.
+  intros v. destruct (redact_email_spec v) as [out [spans [H HP]]].
+  pose proof (changed_iff_email_lemma _ _ _ H) as Hch.
+  destruct HP as [H1 [H2 [H3 H4]]].
+  destruct v as [|c v].
+  - (* empty field: nothing is looked at *)
+    eexists. split; [reflexivity|]. simpl.
+    assert (Hno : forall s a e, ~ email_at [] s a e).
+    { intros s a e HE. destruct (email_shape_facts _ _ _ _ _ HE) as [Ha _]. destruct a; discriminate. }
+    split; [lia|]. split; [reflexivity|]. split; [intros s a e HE; exfalso; exact (Hno _ _ _ HE)|].
+    split; [intros es ee []|]. split; [|reflexivity].
+    split; [discriminate | intros [s [a [e HE]]]; exfalso; exact (Hno _ _ _ HE)].
+  - unfold transform_redact. unfold redact_email in H.
+    destruct (find_first (c :: v)) as [[f|]|e|p]; cbn [rbind] in *; try discriminate.
+    + rewrite H. cbn [rbind].
+      destruct spans as [|sp spans].
+      * simpl. eexists. split; [reflexivity|]. simpl. simpl in H2.
+        split; [lia|]. split; [reflexivity|]. split; [exact H4|]. split; [intros es ee []|]. split; [|reflexivity].
+        split; [discriminate|]. intro HE. apply Hch in HE. congruence.
+      * simpl. eexists. split; [reflexivity|]. simpl.
+        split; [exact H1|]. split; [exact H2|]. split; [exact H4|].
+        split; [intros es ee Hin; exact (H3 (es, ee) Hin)|]. split; [|discriminate].
+        split; [intros _; apply Hch; discriminate | reflexivity].
+    + inversion H; subst out spans. eexists. split; [reflexivity|]. simpl.
+      split; [lia|]. split; [reflexivity|]. split; [exact H4|]. split; [intros es ee []|]. split; [|reflexivity].
+      split; [discriminate|]. intro HE. apply Hch in HE. congruence.
+Qed.
+
+(* ------------------------------------------------------------------------------------------ *)
+(* concrete texts (tests of the definitions, and witnesses that the hypotheses are satisfiable) *)
+
+Ltac ch := unfold addr_ch, word_ch, digit_ch; lia.
+
+(* "a@b.c@d.e": two overlapping addresses, a@b.c at [0,5) and b.c@d.e at [2,9), the '@' at 1 and 5 *)
+Definition ex_overlap : bytes := [97;64;98;46;99;64;100;46;101]%N.
+
+Lemma ex_overlap_first : email_at ex_overlap 0 1 5.
+Proof.
+  exists [], [97%N], [98;46;99]%N, [64;100;46;101]%N.
+  split; [reflexivity|]. split; [reflexivity|]. split; [reflexivity|]. split; [reflexivity|].
+  split; [left; reflexivity|].
+  split; [exists [], 97%N; split; [reflexivity|]; split; [constructor | ch]|].
+  split.
+  - apply (dom_dotted [98%N] 99%N [] [64;100;46;101]%N).
+    + exists 98%N, []. split; [reflexivity|]. split; [ch | constructor].
+    + ch.
+    + constructor.
+    + simpl. ch.
+  - intros [_ [HF _]]. inversion HF as [|? ? H1 _]; subst. destruct H1; revert H; ch.
+Qed.
+
+Lemma ex_overlap_second : email_at ex_overlap 2 5 9.
+Proof.
+  exists [97;64]%N, [98;46;99]%N, [100;46;101]%N, [].
+  split; [reflexivity|]. split; [reflexivity|]. split; [reflexivity|]. split; [reflexivity|].
+  split; [right; exists [97%N], 64%N; split; [reflexivity|]; split; ch|].
+  split; [exists [98;46]%N, 99%N; split; [reflexivity|]; split; [repeat constructor; ch | ch]|].
+  split.
+  - apply (dom_dotted [100%N] 101%N [] []).
+    + exists 100%N, []. split; [reflexivity|]. split; [ch | constructor].
+    + ch.
+    + constructor.
+    + exact I.
+  - intros [_ [HF _]]. inversion HF as [|? ? H1 _]; subst. destruct H1; revert H; ch.
+Qed.
+
+Lemma ex_overlap_result :
+  redact_email ex_overlap = Ok (marker ++ marker, [(0, 5); (5, 9)]).
+Proof. vm_compute. reflexivity. Qed.
+
+(* "bob@163.com_2024": digits at both ends of the domain, yet an address (defect #18 before the fix) *)
+Definition ex_digit_ends : bytes := [98;111;98;64;49;54;51;46;99;111;109;95;50;48;50;52]%N.
+
+Lemma ex_digit_ends_email : email_at ex_digit_ends 0 3 16.
+Proof.
+  exists [], [98;111;98]%N, [49;54;51;46;99;111;109;95;50;48;50;52]%N, [].
+  split; [reflexivity|]. split; [reflexivity|]. split; [reflexivity|]. split; [reflexivity|].
+  split; [left; reflexivity|].
+  split; [exists [98;111]%N, 98%N; split; [reflexivity|]; split; [repeat constructor; ch | ch]|].
+  split.
+  - apply (dom_dotted [49;54;51]%N 99%N [111;109;95;50;48;50;52]%N []).
+    + exists 49%N, [54;51]%N. split; [reflexivity|]. split; [ch | repeat constructor; ch].
+    + ch.
+    + repeat constructor; ch.
+    + exact I.
+  - intros [_ [HF _]]. do 4 (inversion HF as [|? ? _ HF']; subst; clear HF; rename HF' into HF).
+    inversion HF as [|? ? H1 _]; subst. destruct H1; revert H; ch.
+Qed.
+
+Lemma ex_digit_ends_result : redact_email ex_digit_ends = Ok (marker, [(0, 16)]).
+Proof. vm_compute. reflexivity. Qed.
+
+(* "hello@123.456": a number, not an address: unchanged *)
+Lemma ex_number_result :
+  redact_email [104;101;108;108;111;64;49;50;51;46;52;53;54]%N = Ok ([104;101;108;108;111;64;49;50;51;46;52;53;54]%N, []).
+Proof. vm_compute. reflexivity. Qed.
